@@ -29,6 +29,7 @@ type Case struct {
 	Supported   []string `json:"supported,omitempty"` // forced on (override of a low target)
 	Minify      bool     `json:"minify,omitempty"`
 	Source      string   `json:"source"`
+	Tags        []string `json:"tags,omitempty"` // generator's labels of the positions used (evidence classes only)
 }
 
 var targets = map[string]api.Target{"es2015": api.ES2015, "es2016": api.ES2016, "es2017": api.ES2017, "es2018": api.ES2018, "es2019": api.ES2019, "es2020": api.ES2020, "es2021": api.ES2021, "es2022": api.ES2022, "es2023": api.ES2023, "esnext": api.ESNext}
@@ -115,6 +116,10 @@ func judge(c Case) vdrv.Verdict {
 	if len(r.Errors) > 0 {
 		// "if esbuild reports no error then …": a refusal for the target is an accepted outcome
 		v := vdrv.Pass(false, "esbuild-refused")
+		if len(plain.Errors) > 0 {
+			// refused without any lowering as well: outside this property (C13's domain), but worth a class
+			v = vdrv.Pass(false, "esbuild-refused-for-every-target")
+		}
 		v.Observed = r.Errors[0].Text
 		return v
 	}
@@ -125,6 +130,7 @@ func judge(c Case) vdrv.Verdict {
 	}
 	lowered := len(plain.Errors) == 0 && string(plain.Code) != out
 	cls := []string{"target=" + c.Target, "src=" + c.Source}
+	cls = append(cls, c.Tags...)
 	if lowered {
 		cls = append(cls, "lowered")
 	}
@@ -143,6 +149,11 @@ func judge(c Case) vdrv.Verdict {
 		return v
 	}
 	v := vdrv.Fail(fmt.Sprintf("lowered program (target=%s unsupported=%v supported=%v minify=%v) behaves differently", c.Target, c.Unsupported, c.Supported, c.Minify), ref.Trace(), got.Trace()+"\n--- output\n"+out)
+	// findings recognised by repairing the output (precise) come first, the static signatures after them
+	if id := classifyByRepair(c, out, ref.Trace()); id != "" {
+		v.Known = id
+		return v
+	}
 	switch {
 	case c.lowers("object-rest-spread", 2018) && hasComplexObjectRest(c.Code) && strings.Contains(ref.Trace(), "err:TypeError"):
 		// both listed deviations show as a TypeError that native destructuring throws (rest of null/undefined)
@@ -351,7 +362,38 @@ func runProg(t *testing.T) {
 	})
 }
 
-var subs = map[string]vdrv.ReplayFunc{"families": replay, "prog": replay}
+// drawConfigUniform: like drawConfig but with unbiased draws (every target and override equally likely).
+func drawConfigUniform(g *gen, c *Case) {
+	feats := usable()
+	c.Target = targetNames[g.n("target", len(targetNames))]
+	switch g.n("overrides", 5) {
+	case 0:
+		n := 1 + g.n("nunsupported", 3)
+		for i := 0; i < n; i++ {
+			c.Unsupported = append(c.Unsupported, feats[g.n("unsupported", len(feats))])
+		}
+	case 1:
+		c.Supported = append(c.Supported, feats[g.n("supported", len(feats))])
+	}
+	c.Minify = g.chance("minify", 25)
+}
+
+func runGen(sub, rule string, quick, thorough int, build func(rt *rapid.T) (string, []string)) func(t *testing.T) {
+	return func(t *testing.T) {
+		H.Rule(sub, rule)
+		H.SetupRapid(sub, H.N(quick, thorough))
+		rapid.Check(t, func(rt *rapid.T) {
+			code, tags := build(rt)
+			c := Case{Source: sub, Code: code, Tags: tags}
+			drawConfigUniform(newGen(rt), &c)
+			H.Report(rt, sub, fmt.Sprint(c), c, judge(c))
+		})
+	}
+}
+
+const ruleTail = " × uniformly drawn target ES2015…ESNext × supported overrides (both directions) × minify; oracle: V8 trace original vs lowered; non-trivial = output differs from the unlowered print and ≥2 events"
+
+var subs = map[string]vdrv.ReplayFunc{"families": replay, "prog": replay, "cls": replay, "pat": replay, "loop": replay}
 
 func setup(t *testing.T) {
 	H = vdrv.New("C05")
@@ -370,6 +412,9 @@ func TestCheck(t *testing.T) {
 	H.RunReplays(t, subs)
 	H.Sub(t, "families", runFamilies)
 	H.Sub(t, "prog", runProg)
+	H.Sub(t, "cls", runGen("cls", "rapid: one class (optionally extends a base with observable receivers) with 1–5 drawn members — private fields / methods / accessors (static and instance), public and static fields, static blocks, computed keys, methods and getters — whose initialisers and bodies use this / super (call, get, set, update, optional, tagged) / new.target / private names directly, in arrows, nested arrows and async arrows; the class is evaluated in one of 23 contexts (top level, block, every loop kind incl. labelled continue, nested loops, loop head, try/finally, switch, function/method/arrow/generator/async bodies, static block of an outer class), every member is then exercised from outside on each evaluation and across evaluations (brand checks)"+ruleTail, 1500, 150000, genCls))
+	H.Sub(t, "pat", runGen("pat", "rapid: an object pattern (depth ≤3, usually with a rest element) whose computed keys (identifiers, assignments, updates, probes, symbols), default values and targets (variables, members, the key variables themselves) alias each other, over sources with getters that log or mutate the key variables, in 22 positions (var/let/const, assignment statement and expression, for-of / for-in / for-await heads in declaration and assignment form, parameters of functions, arrows, async functions, generators, methods and setters, parameter defaults, catch, nested in array patterns, for-init)"+ruleTail, 1500, 150000, genPat))
+	H.Sub(t, "loop", runGen("loop", "rapid: 1–4 nested loops (for-await over async/sync generators, hand-written iterators with observable return(), arrays of promises; for-of; for; while; do-while; for-in) with zero, one or two stacked labels and labelled blocks, bodies with awaits, yields, closures over the iteration binding (called after the loop), try/finally, switch, and conditional break / continue / return to inner and outer labels, inside async functions, arrows, methods, and async generators driven by next(value)/return()"+ruleTail, 1200, 120000, genLoop))
 	complete = true
 }
 
